@@ -1013,7 +1013,7 @@ func (s *TreeShapeListener) EnterQuery_var(ctx *parser.Query_varContext) {
 	case ctx.Var_in_curly() != nil:
 		cleanString := strings.Replace(ctx.Var_in_curly().GetText(), "{", "", 1)
 		cleanString = strings.Replace(cleanString, "}", "", 1)
-		ref_path = append(ref_path, cleanString)
+		ref_path = append(ref_path, MustUnescape(cleanString))
 		type1 = &sysl.Type{
 			Type: &sysl.Type_TypeRef{
 				TypeRef: &sysl.ScopedRef{
@@ -1957,7 +1957,8 @@ func (s *TreeShapeListener) EnterCollector_pubsub_call(ctx *parser.Collector_pub
 
 // EnterCollector_action_stmt is called when production collector_action_stmt is entered.
 func (s *TreeShapeListener) EnterCollector_action_stmt(ctx *parser.Collector_action_stmtContext) {
-	text := ctx.Name_str().GetText()
+	// names the endpoint the way it is stored: unescaped
+	text := MustUnescape(ctx.Name_str().GetText())
 	s.addToCurrentScope(&sysl.Statement{
 		Stmt: &sysl.Statement_Action{
 			Action: &sysl.Action{
